@@ -45,7 +45,7 @@ SeedState(sd) ==
 C0 == [modules |-> <<>>, lockAfter |-> 2, lockWindow |-> 2, lockDuration |-> 2, expireAfter |-> 2,
        recoverTTL |-> 2, recoverLogin |-> FALSE, emailAuth |-> FALSE, totpOneTime |-> FALSE,
        whitelist |-> <<>>, logoutMethod |-> "DELETE", mwReqs |-> 0, mwFail |-> "404",
-       errWrites |-> FALSE, json |-> FALSE, mailGo |-> FALSE, foldPid |-> FALSE]
+       errWrites |-> FALSE, json |-> FALSE, mailGo |-> FALSE, foldPid |-> FALSE, regNoWhitelist |-> FALSE]
 
 Seed2 == <<S0("u1", 1, TRUE), S0("u2", 2, TRUE)>>
 SeedUnconf == <<S0("u1", 1, TRUE), S0("u2", 2, FALSE)>>
